@@ -79,10 +79,12 @@ def kernel_class(line):
 
 # ---- the model --------------------------------------------------------------------------------------------
 
-def run_model(ctx, wd, module, cases, tag, chunk=1500, workers=4, parallel=4):
+def run_model(ctx, wd, module, cases, tag, workers=2, parallel=8):
     """-> ({case number: sorted [(rule, pc)] ([] = accepted)}, {case number: TLC evaluation error}).
     A case on which the model cannot be evaluated (TLC error) is isolated: recorded and the batch re-run without it."""
     verdict, errors = {}, {}
+    # measured: TLC gains little from more than 2-3 workers on these short behaviours; several processes do
+    chunk = max(300, -(-len(cases) // parallel))
 
     def one(start):
         part = list(range(start, min(start + chunk, len(cases))))
@@ -100,6 +102,7 @@ def run_model(ctx, wd, module, cases, tag, chunk=1500, workers=4, parallel=4):
                 text = msg = str(e)
             os.remove(path)
             if msg:
+                note(ctx, f"{module} batch {start} attempt {attempt}: evaluation error")
                 m = re.findall(r"\bcid = (\d+)", text)
                 if not m:
                     raise T.MachineryError(f"{module} failed:\n" + msg[:3000])
@@ -162,18 +165,23 @@ def select(ctx, items):
     """[(item, number of mutants)]: which programs are mutated and how often.  Deterministic; every source is
     represented; the library's programs, the hash / Dict / sub-program / temporaries programs and the long X08 / C04
     programs (packet access, tail calls, several maps, spills around calls) get the larger share."""
-    per = dict(library=(1, 70), extra=(1, 40), X08=(4, 24), C04=(3, 24), C03=(8, 16), C01=(12, 12), C07=(12, 12),
-               C06=(6, 12), C02=(6, 12))
-    scale = 1 if ctx.quick else 10
+    per = dict(library=(1, 48), extra=(1, 24), X08=(4, 16), C04=(3, 16), C03=(8, 10), C01=(12, 8), C07=(12, 8),
+               C06=(6, 8), C02=(6, 8))
     out, seen = [], collections.Counter()
     for it in items:
         step, cnt = per.get(it["source"], (5, 12))
-        if not ctx.quick:
-            step = max(1, step // 2)
         seen[it["source"]] += 1
         if (seen[it["source"]] - 1) % step == 0:
-            out.append((it, cnt * (scale if step == 1 else scale // 2 or 1)))
+            # the thorough corpus has about 4.5 times the programs; the few library / extra programs get more each
+            out.append((it, cnt if ctx.quick else cnt * 8 if step == 1 else cnt * 2))
     return out
+
+
+def note(ctx, msg):
+    if os.environ.get("X10_VERBOSE"):
+        import sys
+        import time
+        print(f"[x10 {time.time() - ctx.t0:6.1f}s] {msg}", file=sys.stderr, flush=True)
 
 
 def run(ctx):
@@ -212,6 +220,7 @@ def run(ctx):
         for cls, what, new in got:
             progs_.append(dict(kind="mutant", source=it["source"], label=it["label"], insns=new, maps=it["maps"],
                                h=vmutate.key(new, it["maps"]), edit=what, cls=cls, of=it["h"]))
+    note(ctx, f"{len(items)} programs, {len(progs_) - len(items)} mutants")
     # 3. the kernel's verdict on everything
     mp = Maps()
     try:
@@ -219,13 +228,15 @@ def run(ctx):
             p["kernel"] = kernel_verdict(p["insns"], mp.fds(p["maps"]))
     finally:
         mp.close()
+    note(ctx, "kernel verdicts done")
     # 4. the models, one batched TLC run per chunk
     cases = [dict(programs=[p["insns"]], entry=1, maps=p["maps"]) for p in progs_]
     verdicts = {}
     with ThreadPoolExecutor(len(models)) as ex:
-        futs = {m: ex.submit(run_model, ctx, wd, m, cases, "m", 1500, 4 if len(models) == 1 else 3, 4) for m in models}
+        futs = {m: ex.submit(run_model, ctx, wd, m, cases, "m", 2, 8 if len(models) == 1 else 5) for m in models}
         for m, f in futs.items():
             verdicts[m] = f.result()
+    note(ctx, "models done: " + ", ".join(f"{m}: {len(verdicts[m][1])} evaluation errors" for m in models))
     # 5. tabulate
     tables = {}
     for m in models:
